@@ -472,17 +472,20 @@ Definition amounts (g : graph) : list expr := map c_amount (order g).
 Definition compartment_names (g : graph) : list name := map c_name (order g).
 Definition zero_order_inputs (g : graph) : list expr := map c_input (order g).
 
-(* compartmental_matrix, the two loops:  f[j,i] = rate(i -> j) for i != j (INDEX comparison),
-   diagsum -= rate for EVERY j (including j = i), f[i,i] = diagsum - outrate *)
+(* compartmental_matrix, the two loops (after fix 34eef54):  for i != j (INDEX comparison)
+   f[j,i] = rate(i -> j) and diagsum -= rate;  f[i,i] = diagsum - outrate.  A flow from a
+   compartment to itself is read by get_flow but used nowhere. *)
 Definition dflt : comp := mkComp [] (Num 0%Q) [] (Num 0%Q) (Num 0%Q) (Num 1%Q).
 Definition nthc (l : list comp) (i : nat) : comp := nth i l dflt.
 
-Definition diag_entry (g : graph) (ns : list comp) (from : comp) : expr :=
-  Add (fold_left (fun acc to => Add acc (Neg (get_flow g (Cmt from) (Cmt to)))) ns (Num 0%Q))
-      (Neg (get_flow g (Cmt from) Out)).
+Definition diag_entry (g : graph) (ns : list comp) (i : nat) : expr :=
+  Add (fold_left (fun acc j => if Nat.eqb i j then acc
+                               else Add acc (Neg (get_flow g (Cmt (nthc ns i)) (Cmt (nthc ns j)))))
+                 (seq 0 (length ns)) (Num 0%Q))
+      (Neg (get_flow g (Cmt (nthc ns i)) Out)).
 
 Definition matrix_entry (g : graph) (ns : list comp) (row col : nat) : expr :=
-  if Nat.eqb row col then diag_entry g ns (nthc ns col)
+  if Nat.eqb row col then diag_entry g ns col
   else get_flow g (Cmt (nthc ns col)) (Cmt (nthc ns row)).
 
 Definition matrix_on (g : graph) (ns : list comp) : list (list expr) :=
@@ -535,32 +538,34 @@ Fixpoint index_of (l : list node) (n : node) : nat :=
 
 Definition cs := (graph * expr)%type.      (* the frozen graph and the independent variable t *)
 
-Definition to_dict (s : cs) : csdict :=
-  let '(g, t) := s in
+Definition dict_rates (g : graph) : list (nat * nat * expr) :=
   let ns := nodes g in
-  mkDict (map node_to_dict ns)
-         (flat_map (fun p => map (fun e => (index_of ns (fst p), index_of ns (fst e), snd e)) (snd p)) g)
-         t.
+  flat_map (fun p => map (fun e => (index_of ns (fst p), index_of ns (fst e), snd e)) (snd p)) g.
+
+Definition to_dict (s : cs) : csdict :=
+  let '(g, t) := s in mkDict (map node_to_dict (nodes g)) (dict_rates g) t.
 
 (* from_dict; None = IndexError *)
+Definition from_dict_node_step (st : graph * list node) (d : ndict) : graph * list node :=
+  let '(g, cl) := st in
+  match d with
+  | DOutput => (g, cl ++ [Out])
+  | DCompartment nm a dl i l b =>
+      let c := Cmt (comp_from_dict nm a dl i l b) in (add_node g c, cl ++ [c])
+  end.
 Definition from_dict_nodes (ds : list ndict) : graph * list node :=
-  fold_left (fun st d =>
-               let '(g, cl) := st in
-               match d with
-               | DOutput => (g, cl ++ [Out])
-               | DCompartment nm a dl i l b =>
-                   let c := Cmt (comp_from_dict nm a dl i l b) in (add_node g c, cl ++ [c])
-               end) ds (empty_builder, []).
+  fold_left from_dict_node_step ds (empty_builder, []).
+
+Definition from_dict_step (cl : list node) (acc : option graph) (e : nat * nat * expr) : option graph :=
+  let '(i, j, r) := e in
+  match acc, nth_error cl i, nth_error cl j with
+  | Some g, Some u, Some v => Some (add_edge g u v r)
+  | _, _, _ => None
+  end.
 
 Definition from_dict (d : csdict) : option cs :=
   let '(g0, cl) := from_dict_nodes (dd_comps d) in
-  let step (acc : option graph) (e : nat * nat * expr) : option graph :=
-      let '(i, j, r) := e in
-      match acc, nth_error cl i, nth_error cl j with
-      | Some g, Some u, Some v => Some (add_edge g u v r)
-      | _, _, _ => None
-      end in
-  match fold_left step (dd_rates d) (Some g0) with
+  match fold_left (from_dict_step cl) (dd_rates d) (Some g0) with
   | Some g => Some (g, dd_t d)
   | None => None
   end.
